@@ -178,7 +178,7 @@ var varSpecs = []string{"a int", "b, c string", "d = 1", "e, f = 1, \"s\"", "g T
 var typeSpecs = []string{"A int", "B = A", "C struct{ x int }", "D interface{ M() }", "E[T any] []T", "F[K comparable, V any] map[K]V", "G = F[string, int]", "H func(int) string", "I [3]chan<- int"}
 
 var handDecls = []string{
-	"type G[T any] int", "func F[T any]()", "var v G[int, string]", // minimal inputs of the known losses first
+	"type G[T any] int", "func F[T any]()", "var v G[int, string]", "type A[T any] = []T", "type (\n\tA[K comparable, V any] = map[K]V\n\tB = A[string, int]\n)", // minimal inputs of the known losses first
 	"func init() {}", "func _() {}", "func f()", "func f(x int) int", "func (T) M()", "func main() { println(1) }",
 	"func f() (int)", "func f() (_ int)", "func f(_ int, _ string)", "func f(int, ...string)", "func f(a int, _ ...string)",
 	"func f() func(int) func(string) bool", "func f() (func(int), error)", "func (t *T) Get(k string) (v any, ok bool) { return nil, false }",
@@ -325,6 +325,10 @@ func generate(thorough bool, emit emitFn) {
 		}
 		for _, sh := range genTypeShapes {
 			if !out("generic-type", "type G"+tp+" "+sh, false) {
+				return
+			}
+			// a type spec with both optional parts: parameters and `=` (generic alias)
+			if !out("generic-alias", "type G"+tp+" = "+sh, false) {
 				return
 			}
 		}
